@@ -70,6 +70,8 @@ func main() {
 				emitPrimCases(w, r, *thorough)
 			case "calc":
 				emitCalcCases(w, r, *thorough)
+			case "cost":
+				emitCostCases(w, r, *rounds, *thorough)
 			case "reg":
 				emitRegCases(w, r, *thorough)
 			case "msg":
